@@ -449,6 +449,15 @@ print_msg(nng_msg *m, int pipehdr)
 	printf("\n");
 }
 
+// flags shared by rx / wsrx: z = NNG_OPT_RECVBUF 0, B = NNG_OPT_RECVBUF 2 (protocols without the option ignore it);
+// p = back-pressure: the application starts receiving only 300 ms after the last byte was written
+static void
+bp_options(nng_socket s, const char *fl)
+{
+	if (strchr(fl, 'z')) nng_socket_set_int(s, NNG_OPT_RECVBUF, 0);
+	if (strchr(fl, 'B')) nng_socket_set_int(s, NNG_OPT_RECVBUF, 2);
+}
+
 // rx <tran> <role> <proto> <rcvmax> <negohex> <negocuts> <streamhex> <cuts> <nexpect> <flags>
 //   negohex  : the 8 (or any number of) bytes the raw peer sends as its SP header
 //   nexpect  : how many messages the harness waits for before it stops early
@@ -477,6 +486,7 @@ do_rx(char **tok)
 	rawhdr = strcmp(proto, "xrep") == 0 || strcmp(proto, "xrespondent") == 0;
 	nng_socket_set_size(c.sock, NNG_OPT_RECVMAXSZ, rcvmax);
 	nng_socket_set_ms(c.sock, NNG_OPT_RECVTIMEO, 600);
+	bp_options(c.sock, fl);
 	if ((rv = conn_attach(&c, tran, role, 0)) != 0) {
 		printf("fail attach rv=%d\n", rv);
 		conn_close(&c);
@@ -489,6 +499,7 @@ do_rx(char **tok)
 	if (strchr(fl, 'c')) {
 		shutdown(c.fd, SHUT_WR);
 	}
+	if (strchr(fl, 'p')) usleep(300000);
 	for (;;) {
 		nng_msg *m;
 		if (nrx >= nexp) nng_socket_set_ms(c.sock, NNG_OPT_RECVTIMEO, 40);
@@ -734,6 +745,75 @@ out:
 	if (two) nng_socket_close(rx2);
 }
 
+// inprocbp <pair|push> <recvbuf> <hdrhex:bodyhex,...>
+// back-pressure over inproc: a thread sends all messages (blocking sends) while
+// the receiving application does not receive for 300 ms, then receives
+static void
+do_inprocbp(char **tok)
+{
+	char       url[64];
+	nng_socket tx, rx;
+	int        rv, push = strcmp(tok[1], "push") == 0;
+	txjob      j = { 0 };
+	pthread_t  th;
+
+	snprintf(url, sizeof(url), "inproc://c01bp_%d_%d", (int) getpid(), ++g_serial);
+	rv = push ? nng_push0_open(&tx) : nng_pair0_open_raw(&tx);
+	if (rv == 0) rv = push ? nng_pull0_open(&rx) : nng_pair0_open(&rx);
+	if (rv != 0) {
+		printf("fail open rv=%d\n", rv);
+		return;
+	}
+	nng_socket_set_int(rx, NNG_OPT_RECVBUF, atoi(tok[2]));
+	nng_socket_set_int(tx, NNG_OPT_SENDBUF, 0);
+	nng_socket_set_ms(tx, NNG_OPT_SENDTIMEO, 5000);
+	nng_socket_set_ms(rx, NNG_OPT_RECVTIMEO, 600);
+	if ((rv = nng_listen(rx, url, NULL, 0)) != 0 || (rv = nng_dial(tx, url, NULL, 0)) != 0) {
+		printf("fail connect rv=%d\n", rv);
+		goto out;
+	}
+	{
+		char *sp = NULL, *copy = strdup(tok[3]);
+		int   cap = 1;
+		for (char *p = copy; *p; p++) cap += (*p == ',');
+		j.hdr  = calloc(cap, sizeof(*j.hdr));
+		j.body = calloc(cap, sizeof(*j.body));
+		j.hl   = calloc(cap, sizeof(size_t));
+		j.bl   = calloc(cap, sizeof(size_t));
+		for (char *t = strtok_r(copy, ",", &sp); t != NULL; t = strtok_r(NULL, ",", &sp)) {
+			char *colon    = strchr(t, ':');
+			*colon         = 0;
+			j.hdr[j.nmsg]  = unhex(t, &j.hl[j.nmsg]);
+			j.body[j.nmsg] = unhex(colon + 1, &j.bl[j.nmsg]);
+			j.nmsg++;
+		}
+		free(copy);
+	}
+	j.sock = tx;
+	pthread_create(&th, NULL, tx_thread, &j);
+	usleep(300000);
+	for (int n = 0; n < j.nmsg + 2; n++) {
+		nng_msg *m;
+		if (n >= j.nmsg) nng_socket_set_ms(rx, NNG_OPT_RECVTIMEO, 40);
+		if (nng_recvmsg(rx, &m, 0) != 0) break;
+		print_msg(m, 0);
+		nng_msg_free(m);
+	}
+	pthread_join(th, NULL);
+	printf("end sent_rv=%d\n", j.rv);
+	for (int i = 0; i < j.nmsg; i++) {
+		free(j.hdr[i]);
+		free(j.body[i]);
+	}
+	free(j.hdr);
+	free(j.body);
+	free(j.hl);
+	free(j.bl);
+out:
+	nng_socket_close(tx);
+	nng_socket_close(rx);
+}
+
 // ------------------------------------------------------- SP over WebSocket
 #include "supplemental/websocket/base64.h"
 #include "supplemental/websocket/sha1.h"
@@ -784,6 +864,8 @@ make_accept(const char *key24, char *out29)
 // connect a raw descriptor to an nng pair0 socket over ws:// and complete the
 // HTTP upgrade with the SP sub-protocol.  Bytes that followed nng's head are
 // kept in lead[0..*nlead).  Returns the raw fd or -1.
+static const char *g_wsproto = "pair"; // <name>.sp.nanomsg.org offered / answered by the raw side
+
 static int
 ws_attach(nng_socket s, char role, size_t fragsize, uint8_t *lead, size_t *nlead)
 {
@@ -808,9 +890,9 @@ ws_attach(nng_socket s, char role, size_t fragsize, uint8_t *lead, size_t *nlead
 		int hl = snprintf((char *) head, sizeof(head),
 		    "GET / HTTP/1.1\r\nHost: 127.0.0.1:%d\r\nUpgrade: websocket\r\n"
 		    "Connection: Upgrade\r\nSec-WebSocket-Key: dGhlIHNhbXBsZSBub25jZQ==\r\n"
-		    "Sec-WebSocket-Protocol: pair.sp.nanomsg.org\r\n"
+		    "Sec-WebSocket-Protocol: %s.sp.nanomsg.org\r\n"
 		    "Sec-WebSocket-Version: 13\r\n\r\n",
-		    port);
+		    port, g_wsproto);
 		if (raw_write_all(fd, head, (size_t) hl) != 0) goto fail;
 		if ((rl = raw_read_head(fd, head, sizeof(head) - 1, &tot)) == 0) goto fail;
 		head[rl] = 0;
@@ -855,8 +937,8 @@ ws_attach(nng_socket s, char role, size_t fragsize, uint8_t *lead, size_t *nlead
 		int hl = snprintf((char *) head + rl + 1, sizeof(head) - rl - 1,
 		    "HTTP/1.1 101 Switching Protocols\r\nUpgrade: websocket\r\n"
 		    "Connection: Upgrade\r\nSec-WebSocket-Accept: %s\r\n"
-		    "Sec-WebSocket-Protocol: pair.sp.nanomsg.org\r\n\r\n",
-		    acc);
+		    "Sec-WebSocket-Protocol: %s.sp.nanomsg.org\r\n\r\n",
+		    acc, g_wsproto);
 		if (raw_write_all(fd, head + rl + 1, (size_t) hl) != 0) goto fail;
 	}
 	if (tot > rl) {
@@ -884,14 +966,23 @@ do_wsrx(char **tok)
 
 	c.path[0] = 0;
 	c.nngfd   = -1;
-	if ((rv = nng_pair0_open(&c.sock)) != 0) {
+	// optional 8th token: the protocol (pair0 | pull | sub); the raw side names the matching sub-protocol
+	const char *wproto = tok[7] != NULL ? tok[7] : "pair0";
+	g_wsproto = strcmp(wproto, "pull") == 0 ? (role == 'l' ? "pull" : "push")
+	    : strcmp(wproto, "sub") == 0      ? (role == 'l' ? "sub" : "pub")
+	                                      : "pair";
+	if ((rv = open_proto(wproto, &c.sock)) != 0) {
 		printf("fail open rv=%d\n", rv);
 		free(st);
+		g_wsproto = "pair";
 		return;
 	}
 	nng_socket_set_size(c.sock, NNG_OPT_RECVMAXSZ, rcvmax);
 	nng_socket_set_ms(c.sock, NNG_OPT_RECVTIMEO, 600);
-	if ((c.fd = ws_attach(c.sock, role, 0, lead, &nlead)) < 0) {
+	bp_options(c.sock, tok[6]);
+	rv        = ws_attach(c.sock, role, 0, lead, &nlead);
+	g_wsproto = "pair";
+	if ((c.fd = rv) < 0) {
 		printf("fail attach\n");
 		nng_socket_close(c.sock);
 		free(st);
@@ -899,6 +990,7 @@ do_wsrx(char **tok)
 	}
 	raw_write_cut(c.fd, st, sl, cuts, nc);
 	if (strchr(tok[6], 'c')) shutdown(c.fd, SHUT_WR);
+	if (strchr(tok[6], 'p')) usleep(300000);
 	for (;;) {
 		nng_msg *m;
 		if (nrx >= nexp) nng_socket_set_ms(c.sock, NNG_OPT_RECVTIMEO, 40);
@@ -1520,11 +1612,177 @@ out:
 	free(ctl);
 }
 
+// ------------------------------------------------------ resource exhaustion
+static int
+count_fds(void)
+{
+	int n = 0;
+	for (int fd = 0; fd < 4096; fd++) {
+		if (fcntl(fd, F_GETFD) != -1) n++;
+	}
+	return n;
+}
+
+// flood <tran> <proto> <nofile> <n> <kinds> <ctlhex> <self> <peer>
+//   tran: tcp | ipc | sfd | ws (nng listens).  RLIMIT_NOFILE is lowered to
+//   <nofile> for the duration; <n> hostile sessions in sequence, the i-th of
+//   kind kinds[i % len]:  b = 8 bytes that are not an SP header, s = 3 bytes then
+//   disconnect, p = well-formed header with the wrong protocol id, o = good
+//   header then a length field of 2^62, t = good header, a frame announcing 100
+//   bytes, 10 of them, disconnect, h (ws) = garbage where the upgrade request
+//   belongs.  Afterwards the descriptors in use must be back at the count before
+//   the batch (+-2) and a well-behaved connection must be served.
+static void
+do_flood(char **tok)
+{
+	const char   *tran = tok[1], *proto = tok[2], *kinds = tok[5];
+	rlim_t        nofile = (rlim_t) atoi(tok[3]);
+	int           n = atoi(tok[4]), rv, isws = strcmp(tran, "ws") == 0;
+	size_t        cl;
+	uint8_t      *ctl  = unhex(tok[6], &cl);
+	unsigned      peer = (unsigned) atoi(tok[8]);
+	struct rlimit old, lim;
+	double        cpu0 = cpu_ms();
+	sess          x;
+	int           port = 0, dropped = 0, refused = 0;
+	struct sockaddr_in wsa = { .sin_family = AF_INET };
+	uint8_t       good[8] = { 0, 'S', 'P', 0, (uint8_t) (peer >> 8), (uint8_t) peer, 0, 0 };
+
+	getrlimit(RLIMIT_NOFILE, &old);
+	if (isws) {
+		nng_listener l;
+		if ((rv = nng_pair0_open(&x.c.sock)) != 0 || (rv = nng_listener_create(&l, x.c.sock, "ws://127.0.0.1:0/")) != 0 ||
+		    (rv = nng_listener_start(l, 0)) != 0 || (rv = nng_listener_get_int(l, NNG_OPT_BOUND_PORT, &port)) != 0) {
+			printf("fail listen rv=%d\n", rv);
+			free(ctl);
+			return;
+		}
+		wsa.sin_port        = htons((uint16_t) port);
+		wsa.sin_addr.s_addr = htonl(INADDR_LOOPBACK);
+		x.c.fd = -1;
+		x.lfd  = -1;
+		x.c.path[0] = 0;
+	} else {
+		if ((rv = open_proto(proto, &x.c.sock)) != 0) {
+			printf("fail open rv=%d\n", rv);
+			free(ctl);
+			return;
+		}
+		// the first connection only brings the endpoint up (and is a well-behaved one that leaves again)
+		if ((rv = sess_attach(&x, tran, 'l')) != 0) {
+			printf("fail attach rv=%d\n", rv);
+			conn_close(&x.c);
+			free(ctl);
+			return;
+		}
+		uint8_t in[8];
+		raw_write_all(x.c.fd, good, 8);
+		raw_read_n(x.c.fd, in, 8, 2000);
+		shutdown(x.c.fd, SHUT_RDWR);
+	}
+	usleep(150000);
+	int base = count_fds();
+	lim      = old;
+	lim.rlim_cur = nofile < old.rlim_max ? nofile : old.rlim_max;
+	setrlimit(RLIMIT_NOFILE, &lim);
+	for (int i = 0; i < n; i++) {
+		char    k  = kinds[i % strlen(kinds)];
+		int     fd = -1;
+		uint8_t buf[128];
+		size_t  bl = 0;
+		if (isws) {
+			int one = 1;
+			fd      = socket(AF_INET, SOCK_STREAM, 0);
+			if (fd >= 0 && connect(fd, (struct sockaddr *) &wsa, sizeof(wsa)) != 0) {
+				close(fd);
+				fd = -1;
+			}
+			if (fd >= 0) setsockopt(fd, IPPROTO_TCP, TCP_NODELAY, &one, sizeof(one));
+			bl = (size_t) snprintf((char *) buf, sizeof(buf), k == 's' ? "GE" : "NOT HTTP AT ALL\r\n\r\n");
+		} else {
+			fd = sess_second(&x);
+			switch (k) {
+			case 'b': memcpy(buf, "NOT-SP!!", 8); bl = 8; break;
+			case 's': memcpy(buf, good, 3); bl = 3; break;
+			case 'p': memcpy(buf, good, 8); buf[5] ^= 0x0f; bl = 8; break;
+			case 'o':
+				memcpy(buf, good, 8); bl = 8;
+				if (strcmp(tran, "ipc") == 0) buf[bl++] = 1;
+				buf[bl++] = 0x40; memset(buf + bl, 0, 7); bl += 7;
+				break;
+			default:
+				memcpy(buf, good, 8); bl = 8;
+				if (strcmp(tran, "ipc") == 0) buf[bl++] = 1;
+				memset(buf + bl, 0, 7); bl += 7; buf[bl++] = 100;
+				memset(buf + bl, 'x', 10); bl += 10;
+				break;
+			}
+		}
+		if (fd < 0) {
+			refused++;
+			usleep(20000);
+			continue;
+		}
+		raw_write_all(fd, buf, bl);
+		if (k == 's' || k == 't') {
+			usleep(2000);
+			shutdown(fd, SHUT_RDWR);
+		} else {
+			size_t extra = 0;
+			dropped += raw_wait_closed(fd, isws ? 40 : 300, &extra);
+		}
+		close(fd);
+	}
+	// the hostile peers are gone: everything acquired for them must come back
+	int after = -1;
+	for (int w = 0; w < 60; w++) {
+		after = count_fds();
+		if (after <= base + 2) break;
+		usleep(50000);
+	}
+	printf("diag flood n=%d dropped=%d refused=%d base=%d after=%d\n", n, dropped, refused, base, after);
+	printf("fds back=%d\n", after <= base + 2);
+	// the control connection, still under the lowered limit
+	if (isws) {
+		printf("ctl ok=%d\n", ws_control(x.c.sock, &wsa, port));
+	} else {
+		int fd2 = -1, ok = 0;
+		for (int attempt = 0; attempt < 3 && fd2 < 0; attempt++) {
+			fd2 = sess_second(&x);
+			if (fd2 < 0) usleep(100000);
+		}
+		if (fd2 >= 0) {
+			uint8_t in[8], fr[9 + 8];
+			size_t  hl = 0;
+			raw_write_all(fd2, good, 8);
+			if (raw_read_n(fd2, in, 8, 2500) == 8) {
+				if (strcmp(tran, "ipc") == 0) fr[hl++] = 1;
+				for (int i = 7; i >= 0; i--) fr[hl++] = (uint8_t) (((uint64_t) cl) >> (8 * i));
+				raw_write_all(fd2, fr, hl);
+				raw_write_all(fd2, ctl, cl);
+				nng_socket_set_ms(x.c.sock, NNG_OPT_RECVTIMEO, 2500);
+				nng_msg *m;
+				if (nng_recvmsg(x.c.sock, &m, 0) == 0) {
+					ok = 1;
+					nng_msg_free(m);
+				}
+			}
+			close(fd2);
+		}
+		printf("ctl ok=%d\n", ok);
+	}
+	setrlimit(RLIMIT_NOFILE, &old);
+	printf("diag cpu_ms=%.0f\n", cpu_ms() - cpu0);
+	if (x.lfd >= 0) close(x.lfd);
+	conn_close(&x.c);
+	free(ctl);
+}
+
 int
 main(int argc, char **argv)
 {
 	static char     line[1 << 23];
-	char           *tok[14];
+	char           *tok[16];
 	nng_init_params ip = { 0 };
 	struct sigaction sa = { 0 };
 	sa.sa_handler       = on_sigpipe;
@@ -1540,6 +1798,7 @@ main(int argc, char **argv)
 		for (char *t = strtok_r(line, " \n", &sp); t != NULL && nt < 14; t = strtok_r(NULL, " \n", &sp)) {
 			tok[nt++] = t;
 		}
+		for (int i = nt; i < 16; i++) tok[i] = NULL;
 		if (nt == 0 || tok[0][0] == '#') continue;
 		const char *op = tok[0];
 		int         sp0 = g_sigpipe;
@@ -1557,6 +1816,10 @@ main(int argc, char **argv)
 			do_inproc(tok);
 		} else if (strcmp(op, "sess") == 0 && nt >= 12) {
 			do_sess(tok);
+		} else if (strcmp(op, "flood") == 0 && nt >= 9) {
+			do_flood(tok);
+		} else if (strcmp(op, "inprocbp") == 0 && nt >= 4) {
+			do_inprocbp(tok);
 		} else if (strcmp(op, "stall") == 0 && nt >= 8) {
 			do_stall(tok);
 		} else if (strcmp(op, "wshs") == 0 && nt >= 4) {
